@@ -155,12 +155,16 @@ pub fn store_runtime() -> Vec<u8> {
     a.jump("burn_loop");
     a.label("burn_end").op(STOP);
 
-    // 0f : RETURN(NUMBER, BLOCKHASH(NUMBER-1), CHAINID)  (context that predictions may depend on)
+    // 0f : RETURN(NUMBER, BLOCKHASH(NUMBER-1), CHAINID, GASLIMIT, COINBASE, BASEFEE, GASPRICE, ORIGIN, CALLER, ADDRESS,
+    //             SELFBALANCE, CALLVALUE, BLOBBASEFEE, CODESIZE)   (context that predictions may depend on)
     a.label("blockinfo");
     a.op(NUMBER).op(PUSH0).op(MSTORE);
     a.push(1).op(NUMBER).op(SUB).op(BLOCKHASH).push(32).op(MSTORE);
     a.op(CHAINID).push(64).op(MSTORE);
-    a.push(96).op(PUSH0).op(RETURN);
+    for (i, o) in [GASLIMIT, COINBASE, BASEFEE, GASPRICE, ORIGIN, CALLER, ADDRESS, SELFBALANCE, CALLVALUE, 0x4a, CODESIZE].iter().enumerate() {
+        a.op(*o).push(96 + 32 * i as u64).op(MSTORE);
+    }
+    a.push(96 + 32 * 11).op(PUSH0).op(RETURN);
 
     a.finish()
 }
